@@ -42,4 +42,5 @@ func vLessStr(a, b string) bool       { return false }
 func vHasPrefix(a, p []byte) bool     { return false }
 func vParam(name string) int          { return 0 }
 func vEngine() bool                   { return true }
+func vIsConcrete(b bool) bool         { return true }
 func vTrace(on bool)                  {}
